@@ -7,8 +7,11 @@ import CpModel.Serial
     MD <term>   →  OK <hex of the utf-8 Markdown text>  | CRASH TypeError
     MDS <term>  →  OK <hex Markdown text> <hex of the comma-joined sorted names of the classes that carry their own
                    `post_text_encoder` attribute after the call, starting from a clean class state>  | CRASH TypeError
+                   (the code never creates such an attribute: the list is empty, `-`)
     MDE <term>  →  OK <hex Markdown text>  | CRASH TypeError        the same call with an encoder installed on `Serializable`
                    that renders every leaf text t as `<<t>>` (exercises the swap / restore of `post_text_encoder`)
+    DK <term>   →  OK T | OK F        `distinctKeys`: in every set inside the value different elements have different
+                   JSON documents (the hypothesis of the set-order theorems)
     (`-` stands for the empty text)
 
   `<term>` is a prefix encoding of a `Cp.Serial.PyVal` without spaces.  `<hex>` is the lowercase or
@@ -25,12 +28,12 @@ import CpModel.Serial
             | 'P' <hex name> ';' ('0' | '1') term        any other enum member: name, is the member itself an
                                                          int/str/float instance (IntEnum, str mix-in), value
             | 'L' <n> ';' term*                          list / tuple with n items
-            | 'Z' <n> ';' term*                          set / frozenset with n items, in iteration order
+            | 'Z' <n> ';' term*                          set / frozenset with n items, in iteration order (the model
+                                                         orders them as `_get_ordered_set` does)
             | 'O' <n> ';' (term term)*                   OrderedDict with n (key, value) pairs
             | 'U' <n> ';' (term term)*                   plain dict, pairs in iteration order
-            | 'A' hdr metas opt <hex str(inner)> ';' term      object with _asdict: attrs metadata (if attrs class),
-                                                               the argument its own _as_markdown passes on (if any),
-                                                               str(_asdict()), _asdict()
+            | 'A' hdr metas opt term                     object with _asdict: attrs metadata (if attrs class), the
+                                                         argument its own _as_markdown passes on (if any), _asdict()
             | 'C' hdr metas <n> ';' (term term)*         attrs object without _asdict: all fields as ('S'name, value)
             | 'V' hdr <n> ';' (term term)*               object with __dict__ only: items as ('S'name, value)
             | 'Q' hdr                                    any other object
@@ -166,9 +169,8 @@ def pTerm : Nat → P PyVal
       let (h, cs) ← pHdr cs
       let (ms, cs) ← pMetas cs
       let (arg, cs) ← pOpt fuel cs
-      let (innerStr, cs) ← pHexStr cs
       let (inner, cs) ← pTerm fuel cs
-      pure (.hasAsdict h ms arg innerStr inner, cs)
+      pure (.hasAsdict h ms arg inner, cs)
     | 'C' :: cs => do
       let (h, cs) ← pHdr cs
       let (ms, cs) ← pMetas cs
@@ -240,6 +242,9 @@ def serialOp : List String → Option String
   | ["MDE", term] => do
     let v ← parseTerm term
     pure (showText ((asMarkdownSt v ⟨⟨"<<", ">>"⟩, []⟩).map (·.1)))
+  | ["DK", term] => do
+    let v ← parseTerm term
+    pure (if distinctKeys v then "OK T" else "OK F")
   | _ => none
 
 end Cp.Drv
